@@ -102,12 +102,12 @@ func rulePodLockAtMutators(c *Ctx, rule string) {
 			inner = inner.need.viaReq
 		}
 		construct := inner.need.what + " in " + fnName(inner.owner) + " without the pod lock"
-		if fn.Name() == "Preempt" && fnName(inner.owner) == "(*@/pkg/ipam/schedulerplugin.FloatingIPPlugin).allocateInSubnet" ||
-			fn.Name() == "Preempt" && fnName(inner.owner) == "(*@/pkg/ipam/schedulerplugin.FloatingIPPlugin).allocateInSubnetWithKey" {
+		if bareName(fn) == "Preempt" && fnName(inner.owner) == "(*@/pkg/ipam/schedulerplugin.FloatingIPPlugin).allocateInSubnet" ||
+			bareName(fn) == "Preempt" && fnName(inner.owner) == "(*@/pkg/ipam/schedulerplugin.FloatingIPPlugin).allocateInSubnetWithKey" {
 			c.exempt(rule, fn, construct, r.need.at, "Preempt -> getSubnet is not one of the operations C01 quantifies over; IPAM-level atomicity and the pool lock still hold (DESIGN.md §5 observation)")
 			continue
 		}
-		if fn.Name() == "preempt" && fn.Pkg.Pkg.Path() == modPath+"pkg/ipam/server" {
+		if bareName(fn) == "preempt" && fn.Pkg.Pkg.Path() == modPath+"pkg/ipam/server" {
 			c.exempt(rule, fn, construct, r.need.at, "HTTP wrapper of Preempt (same exception)")
 			continue
 		}
